@@ -466,7 +466,7 @@ def main(args: Any) -> int:
         "clang's -O1 IR is a faithful compilation of the C source (other optimisation levels not modelled)",
         "integer-domain bitwise ops on two symbolic operands are uninterpreted with low-bit and sign lemmas only",
     ]
-    rep.outside += ["float_ops.c (libm), CPyTagged_FromFloat/TrueDivide (floating point)", "long-int slow paths", "CPyLong_As* conversions (CPython API loops)"]
+    rep.outside += ["float_ops.c apart from the floor-division helper of K3 (libm calls), CPyTagged_FromFloat/TrueDivide (floating point)", "long-int slow paths", "CPyLong_As* conversions (CPython API loops)"]
     if only is None or "K1" in only:
         run_k1(rep, args.tier)
         run_digits(rep, args.tier)
@@ -478,6 +478,10 @@ def main(args: Any) -> int:
             c15_ir = None  # type: ignore[assignment]
         if c15_ir is not None:
             c15_ir.run(rep, args.tier)
+    if only is None or "K3" in only:
+        from vf import c15_float
+
+        c15_float.run(rep, args.tier)
     return rep.finish(level="other")
 
 
